@@ -27,7 +27,7 @@ func execDecode(a []string) string {
 	if a[0] == "json" {
 		return execDecodeJSON(a)
 	}
-	if a[0] == "mp" || a[0] == "mpbad" {
+	if a[0] == "mp" || a[0] == "mpbad" || a[0] == "mpbadE" {
 		return execDecodeMP(a)
 	}
 	if a[0] == "xml" || a[0] == "xmlbad" {
